@@ -396,6 +396,64 @@ def acl_edit(permit: bool, fs: int, pos: int, pre0: bool, pre1: bool, pre2: bool
             check(after[i] is before[i], "refused edit changed the list")
 
 
+SETUP_POS = [0, 5, 21, 22, 23]
+
+
+def router_acl_setup(pi: int, op: int, ntype: int):
+    """The list a router (or wireless router / firewall) filters with after the per-episode set-up that every reset runs is
+    the list that was configured: a rule added at, or the stock rule removed from, a solver-chosen position (including
+    the positions 22 / 23 that hold the built-in ARP / ICMP permits) is still there afterwards, no other slot changed,
+    and the verdict for an ICMP packet is the one the configured list gives."""
+    import primaite.simulator.network.hardware.nodes.network.router as R
+    from vlib.fixtures import mk_node, new_sim
+
+    assume(all_of(rng(pi, 0, len(SETUP_POS) - 1), rng(op, 0, 2), rng(ntype, 0, 1)))
+    pos = pick(SETUP_POS, pi)
+    kind = pick(["add_deny_icmp", "add_permit_tcp", "remove"], op)
+    nt = pick(["router", "wireless-router"], ntype)
+    with concrete():
+        quiet()
+        sim = new_sim()
+        cfg = {"start_up_duration": 0}
+        if nt == "router":
+            cfg["num_ports"] = 2
+        else:
+            cfg["airspace"] = sim.network.airspace
+        r = mk_node(nt, "r_setup", **cfg)
+        r.power_on()
+        sim.network.add_node(r)
+        acl = r.acl
+        if kind == "add_deny_icmp":
+            acl.add_rule(action=R.ACLAction.DENY, protocol="icmp", position=pos)
+        elif kind == "add_permit_tcp":
+            acl.add_rule(action=R.ACLAction.PERMIT, protocol="tcp", dst_port=80, position=pos)
+        else:
+            acl.remove_rule(pos)
+
+        def dump():
+            return [None if x is None else (x.action.name, x.protocol, x.src_port, x.dst_port, None if x.src_ip_address is None else str(x.src_ip_address), None if x.dst_ip_address is None else str(x.dst_ip_address)) for x in acl.acl]
+
+        before = dump()
+        frame = _mk_frame("icmp")
+        want = None
+        for x in acl.acl:
+            if x is not None and (x.protocol in (None, "icmp")) and x.src_port is None and x.dst_port is None and x.src_ip_address is None and x.dst_ip_address is None:
+                want = x.action == R.ACLAction.PERMIT
+                break
+        if want is None:
+            want = acl.implicit_action == R.ACLAction.PERMIT
+        try:
+            r.setup_for_episode(episode=1)
+        except Exception as e:
+            fail(f"setup_for_episode raised {type(e).__name__}: {e}")
+        after = dump()
+        permitted, _rule = acl.is_permitted(frame)
+    cover("acl_setup")
+    diff = [i for i in range(len(before)) if before[i] != after[i]]
+    check(not diff, lambda: f"{nt}: the episode set-up changed ACL position(s) {diff} (configured: {kind} at {pos}): {[before[i] for i in diff]} -> {[after[i] for i in diff]}")
+    check(bool(permitted) == bool(want), lambda: f"{nt}: after the episode set-up an ICMP packet is {'permitted' if permitted else 'denied'}, the configured list ({kind} at {pos}) says {'permit' if want else 'deny'}")
+
+
 HARNESSES = {
     "rule_match": {
         "fn": rule_match,
@@ -426,6 +484,13 @@ HARNESSES = {
         + [{"fixed": {"n_slots": 3, "max_rules": 4, "spread": True}, "timeout": 600}],
         "cover": ["implicit", "explicit", "late_implicit"],
         "bounds": {"quick": "3 slots (adjacent, and spread incl. position 0 and the last slot)", "thorough": "5 slots; lists of 25 and 4"},
+    },
+    "router_acl_setup": {
+        "fn": router_acl_setup,
+        "quick": [{"fixed": {}, "timeout": 200}],
+        "thorough": [{"fixed": {}, "timeout": 400}],
+        "cover": ["acl_setup"],
+        "bounds": "a real router / wireless router; a DENY-icmp or PERMIT-tcp rule added at, or the rule removed from, position 0 / 5 / 21 / 22 / 23; then Router.setup_for_episode",
     },
     "acl_edit": {
         "fn": acl_edit,
